@@ -8,6 +8,7 @@ context-sensitively by inlining (bounded depth); selected core/heapless function
 else havocs. Every panic-capable site met is recorded as an obligation, discharged iff the abstract state
 implies it in every context in which the site was analysed.
 """
+import os
 import re
 from .lir import strip_turbofish, strip_generics
 
@@ -126,7 +127,7 @@ def cond_not(c):
 
 
 class Obligation:
-    __slots__ = ('fn', 'kind', 'desc', 'span', 'ok', 'bad', 'detail', 'ord')
+    __slots__ = ('fn', 'kind', 'desc', 'span', 'ok', 'bad', 'detail', 'ord', 'bad_entries', 'details')
 
     def __init__(self, fn, kind, desc, span):
         self.fn = fn
@@ -137,6 +138,8 @@ class Obligation:
         self.bad = 0
         self.detail = None
         self.ord = 0
+        self.bad_entries = {}
+        self.details = []
 
     def key(self):
         return '%s:%s:%s#%d' % (self.fn, self.kind, self.desc, self.ord)
@@ -305,6 +308,22 @@ class State:
                 else:
                     self.set_bounds(s, _ceil_div(rl, -c), None)
 
+    def apply_fact(self, f):
+        if isinstance(f, Lin):
+            self.add_con(f)
+        elif f[0] == 'inset':
+            s_, vals = f[1], f[2]
+            cur = self.sets.get(s_)
+            lo, hi = self.lo.get(s_), self.hi.get(s_)
+            vals = frozenset(v for v in vals if (lo is None or v >= lo) and (hi is None or v <= hi))
+            if cur is not None:
+                vals = vals & cur
+            if not vals:
+                raise Infeasible()
+            self.sets[s_] = vals
+            self.lo[s_] = min(vals)
+            self.hi[s_] = max(vals)
+
     def assume(self, cond):
         k = cond[0]
         if k == 'const':
@@ -367,6 +386,56 @@ def _ceil_div(a, b):
     return -((-a) // b)
 
 
+def syms_of_value(v, out):
+    """collect symbols referenced by an abstract value"""
+    if not isinstance(v, tuple):
+        if isinstance(v, Lin):
+            out.update(v.co)
+        elif isinstance(v, dict):
+            for x in v.values():
+                syms_of_value(x, out)
+        elif isinstance(v, frozenset):
+            for y in v:
+                if isinstance(y, Lin):
+                    out.update(y.co)
+                elif isinstance(y, tuple) and y and y[0] == 'inset':
+                    out.add(y[1])
+        return
+    for x in v:
+        if isinstance(x, Lin):
+            out.update(x.co)
+        elif isinstance(x, (tuple, dict)):
+            syms_of_value(x, out)
+        elif isinstance(x, frozenset):
+            for y in x:
+                if isinstance(y, Lin):
+                    out.update(y.co)
+                elif isinstance(y, tuple) and y and y[0] == 'inset':
+                    out.add(y[1])
+
+
+_INPUT_SYM = re.compile(r'^(p\d+_|G:)')
+
+
+def gc_state(st):
+    """drop bounds / sets / constraints of symbols no longer referenced by any value (sound weakening)"""
+    live = set()
+    for v in st.env.values():
+        syms_of_value(v, live)
+    for k, v in st.mem.items():
+        syms_of_value(v, live)
+        syms_of_value(k, live)
+    # constraints keep symbols alive only if all their symbols are live; one-step closure: a constraint over live
+    # symbols only is kept
+    # symbols naming the entry's inputs (lazily materialised, deterministic names) and const generics stay alive
+    def keep(x):
+        return x in live or _INPUT_SYM.match(x) is not None
+    st.cons = {c for c in st.cons if all(keep(x) for x in c.co)}
+    for d in (st.lo, st.hi, st.sets):
+        for k in [k for k in d if not keep(k)]:
+            del d[k]
+
+
 # ---------------------------------------------------------------------------------- join
 class Joiner:
     def __init__(self, an, frame, bb):
@@ -383,6 +452,7 @@ def join_states(an, a, b, frame, bb, widen=False):
     """join b into a (returns new state, changed flag relative to a)"""
     if a is None:
         return b.copy(), True
+    gc_state(b)
     r = State()
     changed = False
     # symbols
@@ -402,6 +472,8 @@ def join_states(an, a, b, frame, bb, widen=False):
                     hi = None if ha is None else _widen_hi(an, s, hi)
             if lo != la or hi != ha:
                 changed = True
+                if os.environ.get('LRS_DBG_JOIN'):
+                    print('   bounds-change bb%s %s: [%s,%s] -> [%s,%s] widen=%s' % (bb, s, la, ha, lo, hi, widen))
             if lo is not None:
                 r.lo[s] = lo
             if hi is not None:
@@ -424,7 +496,21 @@ def join_states(an, a, b, frame, bb, widen=False):
     # values
     ctr = [0]
 
+    dbg = os.environ.get('LRS_DBG_JOIN')
+
     def jv(x, y, tag):
+        nonlocal changed
+        if x == y:
+            return x
+        if dbg:
+            c0 = changed
+            r_ = jv2(x, y, tag)
+            if changed and not c0:
+                print('   join-change bb%s %s: %s | %s' % (bb, tag, str(x)[:80], str(y)[:80]))
+            return r_
+        return jv2(x, y, tag)
+
+    def jv2(x, y, tag):
         nonlocal changed
         if x == y:
             return x
@@ -472,6 +558,22 @@ def join_states(an, a, b, frame, bb, widen=False):
             vs = None if va_ is None or vb_ is None else (va_ | vb_)
             if vs != va_:
                 changed = True
+            guards = {}
+            gx = x[6][1] if len(x) > 6 and x[6] is not None and x[6][0] == 'guard' else {}
+            gy = y[6][1] if len(y) > 6 and y[6] is not None and y[6][0] == 'guard' else {}
+            if va_ is not None and vb_ is not None:
+                for v_ in (va_ | vb_):
+                    ina_, inb_ = v_ in va_, v_ in vb_
+                    if ina_ and not inb_:
+                        # facts of side a hold whenever the value has variant v_
+                        guards[v_] = ('A', gx.get(v_))
+                    elif inb_ and not ina_:
+                        guards[v_] = ('B', gy.get(v_))
+                    else:
+                        # present on both sides: keep only guards present on both
+                        if gx.get(v_) is not None and gx.get(v_) == gy.get(v_):
+                            guards[v_] = ('K', gx.get(v_))
+            pending_guards.append((tag, guards))
             fl = {}
             for k in set(x[3]) | set(y[3]):
                 p, q = x[3].get(k), y[3].get(k)
@@ -481,11 +583,30 @@ def join_states(an, a, b, frame, bb, widen=False):
                     side_lacking = y if p is not None else x
                     if side_lacking[2] is not None and k[0] not in side_lacking[2]:
                         fl[k] = p if p is not None else q
+                    else:
+                        # explicit on one side, still lazily-unknown on the other: materialise the original value
+                        # (deterministic name) for the lacking side and join; otherwise the join is unknown and must
+                        # not be re-materialised under the original name
+                        lack, lack_st = (y, b) if p is not None else (x, a)
+                        orig = None
+                        if len(lack) > 5 and lack[4] is not None:
+                            fty = an.adt_field_ty(lack[1], list(lack[5]), k[0], k[1])
+                            if fty in INT_RANGES or fty == 'bool':
+                                single = lack[2] == frozenset([0]) and lack[1] not in ('core::option::Option', 'core::result::Result')
+                                orig = an.materialize(fty, '%s.%s%s' % (lack[4], '' if single else 'v%d.' % k[0], k[1]), lack_st, None)
+                                late_syms.append(orig)
+                        if orig is not None:
+                            v = jv(p if p is not None else orig, q if q is not None else orig, '%s.%s.%s' % (tag, k[0], k[1]))
+                            fl[k] = v if v is not None else TOP
+                        else:
+                            fl[k] = TOP
                     continue
                 v = jv(p, q, '%s.%s.%s' % (tag, k[0], k[1]))
                 if v is not None:
                     fl[k] = v
-            return ('adt', x[1], vs, fl)
+            nm_ = x[4] if len(x) > 4 and len(y) > 4 and x[4] == y[4] else None
+            ta_ = x[5] if len(x) > 5 and len(y) > 5 and x[5] == y[5] else ()
+            return ('adt', x[1], vs, fl, nm_, ta_, ('guardref', tag))
         if kx == ky == 'sref' and x[1] == y[1]:
             off = jv(('int', x[2]), ('int', y[2]), tag + '.off')
             ln = jv(('int', x[3]), ('int', y[3]), tag + '.len')
@@ -497,19 +618,31 @@ def join_states(an, a, b, frame, bb, widen=False):
                 if v is not None:
                     el[k] = v
             d = jv(x[3], y[3], tag + '[*]') if x[3] is not None and y[3] is not None else None
-            return ('array', x[1], el, d)
+            nm_ = x[4] if len(x) > 4 and len(y) > 4 and x[4] == y[4] and x[3] is None and y[3] is None else None
+            ety_ = x[5] if len(x) > 5 else (y[5] if len(y) > 5 else None)
+            if nm_ is not None:
+                for k in set(x[2]) ^ set(y[2]):
+                    el[k] = TOP
+            return ('array', x[1], el, d, nm_, ety_)
         if kx == ky == 'iter' and x[1] == y[1]:
             return x
+        if kx == ky == 'hvec' and x[1] == y[1]:
+            ln = jv(('int', x[2]), ('int', y[2]), tag + '.hvlen')
+            return ('hvec', x[1], ln[1], x[3])
         changed = True
         return TOP
 
     r_phi_rel = []
+    pending_guards = []
+    late_syms = []
     for k in set(a.env) & set(b.env):
         v = jv(a.env[k], b.env[k], 'f%s_%d' % (k[0], k[1]))
         if v is not None:
             r.env[k] = v
     if set(a.env) - set(b.env):
         changed = True
+        if os.environ.get('LRS_DBG_JOIN'):
+            print('   env-keys-change bb%s %s' % (bb, sorted(set(a.env) - set(b.env))[:5]))
     for k in set(a.mem) & set(b.mem):
         v = jv(a.mem[k], b.mem[k], 'm' + '.'.join(map(str, k)))
         if v is not None:
@@ -523,12 +656,17 @@ def join_states(an, a, b, frame, bb, widen=False):
             r.cons.add(c)
         else:
             changed = True
-    for c in b.cons:
-        if c not in a.cons and a.prove_le0(c):
-            r.cons.add(c)
+            if os.environ.get('LRS_DBG_JOIN'):
+                print('   cons-drop bb%s %r' % (bb, c))
+    if not widen:
+        for c in b.cons:
+            if c not in a.cons and a.prove_le0(c):
+                r.cons.add(c)
     # relational facts on fresh phis: for each constraint of a mentioning the a-input (as lin_a + rest <= 0 form is
     # hard in general) we only transfer facts of the shape  x - e <= k  where e is a symbol-expression common to both
-    for (s, la_, lb_) in r_phi_rel:
+    diff_syms = [x for x in (set(a.lo) | set(a.hi)) & (set(b.lo) | set(b.hi))
+                 if (a.lo.get(x) != b.lo.get(x) or a.hi.get(x) != b.hi.get(x)) and not x.startswith('phi(')][:40] if r_phi_rel and not widen else []
+    for (s, la_, lb_) in (r_phi_rel if not widen else []):
         ps = Lin.sym(s)
         cands = set()
         for st, lin in ((a, la_), (b, lb_)):
@@ -540,18 +678,123 @@ def join_states(an, a, b, frame, bb, widen=False):
         for d in cands:
             if a.prove_le0(la_ + d) and b.prove_le0(lb_ + d):
                 r.cons.add(ps + d)
+        # interval-only relations that the join would lose: phi <= x / x <= phi for symbols x whose bounds differ
+        for x in diff_syms:
+            lx = Lin.sym(x)
+            ua, ub_ = a.ub(la_ - lx), b.ub(lb_ - lx)
+            if ua is not None and ub_ is not None and ua <= 0 and ub_ <= 0:
+                r.cons.add(ps - lx)
+            ua, ub_ = a.ub(lx - la_), b.ub(lx - lb_)
+            if ua is not None and ub_ is not None and ua <= 0 and ub_ <= 0:
+                r.cons.add(lx - ps)
+    # symbols materialised during the join: bounds from the side states
+    for v_ in late_syms:
+        sy_ = set()
+        syms_of_value(v_, sy_)
+        for s_ in sy_:
+            if s_ in r.lo or s_ in r.hi:
+                continue
+            for st_ in (a, b):
+                if s_ in st_.lo and (s_ not in r.lo or st_.lo[s_] < r.lo[s_]):
+                    r.lo[s_] = st_.lo[s_]
+                if s_ in st_.hi and (s_ not in r.hi or st_.hi[s_] > r.hi[s_]):
+                    r.hi[s_] = st_.hi[s_]
+    if pending_guards:
+        _resolve_guards(r, a, b, pending_guards)
+    gc_state(r)
+    gc_state(a)
+    changed = not (r.env == a.env and r.mem == a.mem and r.lo == a.lo and r.hi == a.hi and r.sets == a.sets and r.cons == a.cons)
+    if changed and dbg:
+        why = []
+        if r.env != a.env:
+            why.append('env:%s' % [k for k in set(r.env) | set(a.env) if r.env.get(k) != a.env.get(k)][:4])
+        if r.lo != a.lo or r.hi != a.hi:
+            why.append('bounds:%s' % [(k, a.lo.get(k), a.hi.get(k), r.lo.get(k), r.hi.get(k)) for k in set(r.lo) | set(a.lo) | set(r.hi) | set(a.hi)
+                                       if r.lo.get(k) != a.lo.get(k) or r.hi.get(k) != a.hi.get(k)][:4])
+        if r.cons != a.cons:
+            why.append('cons:-%s +%s' % (list(a.cons - r.cons)[:3], list(r.cons - a.cons)[:3]))
+        if r.sets != a.sets:
+            why.append('sets')
+        if r.mem != a.mem:
+            why.append('mem:%s' % [k for k in set(r.mem) | set(a.mem) if r.mem.get(k) != a.mem.get(k)][:3])
+        print('   CHANGED bb%s widen=%s %s' % (bb, widen, '; '.join(why)))
     return r, changed
 
 
+def _side_facts(side, r):
+    """constraints that hold in `side` but are not retained in the join result r (as a frozenset of Lin <= 0)"""
+    out = set()
+    for c in side.cons:
+        if c not in r.cons:
+            out.add(c)
+    for s_, hi in side.hi.items():
+        rh = r.hi.get(s_)
+        if (rh is None or hi < rh) and (s_ in r.lo or s_ in r.hi):
+            out.add(Lin({s_: 1}, -hi))
+    for s_, lo in side.lo.items():
+        rl = r.lo.get(s_)
+        if (rl is None or lo > rl) and (s_ in r.lo or s_ in r.hi):
+            out.add(Lin({s_: -1}, lo))
+    if len(out) > 80:
+        out = set(sorted(out, key=lambda l: l.key())[:80])
+    for s_, st_ in side.sets.items():
+        if r.sets.get(s_) != st_ and (s_ in r.lo or s_ in r.hi):
+            out.add(('inset', s_, st_))
+    # point values that became intervals
+    for s_, lo in side.lo.items():
+        if side.hi.get(s_) == lo and s_ not in side.sets and (r.lo.get(s_) != lo or r.hi.get(s_) != lo) and (s_ in r.lo or s_ in r.hi):
+            out.add(('inset', s_, frozenset([lo])))
+    return frozenset(out)
+
+
+def _resolve_guards(r, a, b, pending):
+    fa = fb = None
+    table = {}
+    for tag, guards in pending:
+        g = {}
+        for v_, (side, old) in guards.items():
+            if side == 'A':
+                if fa is None:
+                    fa = _side_facts(a, r)
+                facts = fa | (old or frozenset())
+            elif side == 'B':
+                if fb is None:
+                    fb = _side_facts(b, r)
+                facts = fb | (old or frozenset())
+            else:
+                facts = old
+            if facts:
+                g[v_] = facts
+        table[tag] = g
+
+    def fix(v):
+        if not isinstance(v, tuple):
+            return v
+        if v and v[0] == 'adt':
+            fl = {k: fix(x) for k, x in v[3].items()}
+            tagv = v[6] if len(v) > 6 else None
+            if tagv is not None and tagv[0] == 'guardref':
+                g = table.get(tagv[1])
+                tagv = ('guard', g) if g else None
+            return ('adt', v[1], v[2], fl) + tuple(v[4:6]) + (tagv,) if len(v) > 4 else ('adt', v[1], v[2], fl)
+        if v and v[0] == 'tuple':
+            return ('tuple', tuple(fix(x) for x in v[1]))
+        return v
+    for k in list(r.env):
+        r.env[k] = fix(r.env[k])
+    for k in list(r.mem):
+        r.mem[k] = fix(r.mem[k])
+
+
 def _widen_lo(an, s, lo):
-    for t in sorted(an.thresholds, reverse=True):
+    for t in sorted(an.wthresholds, reverse=True):
         if lo is not None and t <= lo:
             return t
     return None
 
 
 def _widen_hi(an, s, hi):
-    for t in sorted(an.thresholds):
+    for t in sorted(an.wthresholds):
         if hi is not None and t >= hi:
             return t
     return None
@@ -670,8 +913,9 @@ class Analyzer:
         self.prog = prog
         self.max_depth = max_depth
         self.obl = {}
-        self.thresholds = {0, 1, 2, 4, 7, 8, 15, 16, 17, 23, 33, 64, 255, 256, 65535, 65536, 2**31 - 1, 2**32 - 1, 2**63 - 1, 2**64 - 1,
+        self.thresholds = {0, 1, 255, 256, 65535, 65536, 2**31 - 1, 2**32 - 1, 2**63 - 1, 2**64 - 1,
                            -1, -128, -2**15, -2**31, -2**63}
+        self.wthresholds = set(self.thresholds)
         self.objtypes = {}
         self.invariants = invariants or {}     # adt path -> fn(an, st, val, name)
         self.constructions = {}                # adt path -> list of facts recorded at aggregate sites
@@ -687,7 +931,7 @@ class Analyzer:
         absint_models.register(self)
 
     # ------------------------------------------------------------------ obligations
-    def obligation(self, frame, kind, desc, span, ok, detail=None):
+    def obligation(self, frame, kind, desc, span, ok, detail=None, lins=()):
         fn = frame.body.path
         k0 = (fn, kind, desc, span)
         o = self.obl.get(k0)
@@ -698,8 +942,19 @@ class Analyzer:
             o.ok += 1
         else:
             o.bad += 1
+            ent = frame.chain()[-1]
+            if ent not in o.bad_entries:
+                sy0 = set()
+                for l_ in lins:
+                    if isinstance(l_, Lin):
+                        sy0.update(l_.co)
+                o.bad_entries[ent] = {'context': frame.chain()[:6], 'why': detail, 'entry': ent, 'syms': sorted(sy0)}
             if o.detail is None:
-                o.detail = {'context': frame.chain()[:6], 'why': detail}
+                sy = set()
+                for l_ in lins:
+                    if isinstance(l_, Lin):
+                        sy.update(l_.co)
+                o.detail = {'context': frame.chain()[:6], 'why': detail, 'entry': frame.chain()[-1], 'syms': sorted(sy)}
         return ok
 
     def finalize_obligations(self):
@@ -747,6 +1002,17 @@ class Analyzer:
             return c['v']
         return None
 
+    def generic_const(self, nm, st):
+        """symbolic value of an uninstantiated const generic parameter (same symbol everywhere)"""
+        nm = nm.strip()
+        if not re.match(r'^[A-Z][A-Z0-9_]*$', nm):
+            return None
+        s_ = 'G:' + nm
+        if s_ not in st.lo and s_ not in st.hi:
+            st.lo[s_] = 0
+            st.hi[s_] = 2**63 - 1
+        return Lin.sym(s_)
+
     def fresh_int(self, st, name, ty):
         lo, hi = INT_RANGES[ty]
         if name not in st.lo and name not in st.hi:
@@ -764,6 +1030,8 @@ class Analyzer:
         """abstract value of an unknown inhabitant of type `ty`, with deterministic symbol names"""
         if frame is not None:
             ty = self.subst_ty(ty, frame)
+        if ty.startswith('heapless::vec::VecInner') or ty.startswith('heapless::Vec<'):
+            return self.make_hvec(self, ty, st)
         t = parse_ty(ty)
         k = t[0]
         if k == 'int':
@@ -790,6 +1058,8 @@ class Analyzer:
             return ('ref', ('O', tgt, ()))
         if k == 'array':
             n = self.const_usize(t[2], frame)
+            if n is None:
+                n = self.generic_const(t[2], st)
             return ('array', n, {}, None, name, _ty_str(t[1]))
         if k == 'tuple':
             return ('tuple', tuple(self.materialize(_ty_str(x), '%s.%d' % (name, i), st, frame, depth + 1) for i, x in enumerate(t[1])))
